@@ -253,3 +253,134 @@ def _(vc):
     node = captured["node"]
     vc.ensure("node_in_shape", vc.eq(vc.attr(node, "in_shape"), (k, h)))
     vc.ensure("node_shape", vc.eq(vc.attr(node, "shape"), (k, c)))
+
+
+# ------------------------------------------------------------------------------------------------
+# compile rules: the rule registered for a symbolic node builds the torch node of the same name with the
+# same input shapes, output shape, axis and auxiliary integers (relational obligation, all ranks)
+# ------------------------------------------------------------------------------------------------
+def _mk_unary(vc, cls, **kw):
+    s = vc.seq("in_shape", positive=True, min_len=1)
+    return vc.new(f"{SP}:{cls}", s, **kw), {}
+
+
+def _mk_axis(vc, cls):
+    s = vc.seq("in_shape", positive=True, min_len=1)
+    axis = admissible_axis(vc, vc.len(s))
+    return vc.new(f"{SP}:{cls}", s, axis=axis), {"dim": "axis"}
+
+
+def _mk_index(vc, cls):
+    s = vc.seq("in_shape", positive=True, min_len=1)
+    idx = vc.seq("indices", kind="list")
+    axis = admissible_axis(vc, vc.len(s))
+    a = norm_axis(axis, vc.len(s))
+    vc.assume(vc.forall(vc.len(idx), lambda k: z3.And(vc.at(idx, k) >= 0, vc.at(idx, k) < vc.at(s, a))))
+    return vc.new(f"{SP}:{cls}", s, indices=idx, axis=axis), {"dim": "axis", "indices": "indices"}
+
+
+def _mk_same2(vc, cls):
+    s = vc.seq("in_shape", positive=True, min_len=1)
+    s2 = vc.seq("in_shape2", positive=True, min_len=1)
+    vc.assume(vc.eq(s, s2))
+    return vc.new(f"{SP}:{cls}", s, s2), {}
+
+
+def _mk_kron(vc, cls):
+    s1 = vc.seq("in_shape1", positive=True, min_len=1)
+    s2 = vc.seq("in_shape2", positive=True, min_len=1)
+    vc.assume(to_z3(vc.len(s1)) == to_z3(vc.len(s2)))
+    return vc.new(f"{SP}:{cls}", s1, s2), {}
+
+
+def _mk_outer(vc, cls):
+    s1 = vc.seq("in_shape1", positive=True, min_len=1)
+    s2 = vc.seq("in_shape2", positive=True, min_len=1)
+    n = vc.len(s1)
+    vc.assume(to_z3(n) == to_z3(vc.len(s2)))
+    axis = admissible_axis(vc, n)
+    a = norm_axis(axis, n)
+    vc.assume(vc.forall(n, lambda k: z3.Implies(k != a, vc.at(s1, k) == vc.at(s2, k))))
+    return vc.new(f"{SP}:{cls}", s1, s2, axis=axis), {"dim": "axis"}
+
+
+def _mk_ssig(vc, cls):
+    s = vc.seq("in_shape", positive=True, min_len=1)
+    lo, hi = vc.real("vmin"), vc.real("vmax")
+    vc.assume(z3.And(0 <= lo, lo < hi))
+    return vc.new(f"{SP}:{cls}", s, lo, hi), {"vmin": "vmin", "vmax": "vmax"}
+
+
+def _mk_clamp(vc, cls):
+    s = vc.seq("in_shape", positive=True, min_len=1)
+    lo = vc.real("vmin")
+    return vc.new(f"{SP}:{cls}", s, vmin=lo), {"vmin": "vmin", "vmax": "vmax"}
+
+
+def _mk_mixing(vc, cls):
+    k, h = vc.int("K", lo=1), vc.int("H", lo=1)
+    return vc.new(f"{SP}:{cls}", (k, h)), {}
+
+
+def _mk_gauss4(vc, cls):
+    k1, k2 = vc.int("K1", lo=1), vc.int("K2", lo=1)
+    return vc.new(f"{SP}:{cls}", (k1,), (k1,), (k2,), (k2,)), {}
+
+
+def _mk_gauss2(vc, cls):
+    k1, k2 = vc.int("K1", lo=1), vc.int("K2", lo=1)
+    return vc.new(f"{SP}:{cls}", (k1,), (k2,)), {}
+
+
+def _mk_polyprod(vc, cls):
+    k1, k2, d1, d2 = vc.int("K1", lo=1), vc.int("K2", lo=1), vc.int("dp1", lo=1), vc.int("dp2", lo=1)
+    return vc.new(f"{SP}:{cls}", (k1, d1), (k2, d2)), {}
+
+
+def _mk_polydiff(vc, cls):
+    k, d, order = vc.int("K", lo=1), vc.int("degp1", lo=1), vc.int("order", lo=1)
+    return vc.new(f"{SP}:{cls}", (k, d), order=order), {"order": "order"}
+
+
+RULES = {
+    "IndexParameter": _mk_index, "SumParameter": _mk_same2, "HadamardParameter": _mk_same2,
+    "KroneckerParameter": _mk_kron, "OuterProductParameter": _mk_outer, "OuterSumParameter": _mk_outer,
+    "ExpParameter": _mk_unary, "LogParameter": _mk_unary, "SquareParameter": _mk_unary, "SigmoidParameter": _mk_unary,
+    "ScaledSigmoidParameter": _mk_ssig, "ClampParameter": _mk_clamp, "SoftplusParameter": _mk_unary,
+    "ConjugateParameter": _mk_unary, "ReduceSumParameter": _mk_axis, "ReduceProductParameter": _mk_axis,
+    "ReduceLSEParameter": _mk_axis, "SoftmaxParameter": _mk_axis, "LogSoftmaxParameter": _mk_axis,
+    "MixingWeightParameter": _mk_mixing, "GaussianProductMean": _mk_gauss4, "GaussianProductStddev": _mk_gauss2,
+    "GaussianProductLogPartition": _mk_gauss4, "PolynomialProduct": _mk_polyprod, "PolynomialDifferential": _mk_polydiff,
+}
+
+for _cls, _mk in RULES.items():
+    def _h(vc, _cls=_cls, _mk=_mk):
+        from engine.values import ClassVal, Obj
+        p, extra = _mk(vc, _cls)
+        table = vc.I.wrap_resolved(vc.repo.resolve_name(vc.repo.module_by_path(RP), "DEFAULT_PARAMETER_COMPILATION_RULES"))
+        rule = table[ClassVal(vc.repo.lookup(f"{SP}:{_cls}"))]
+        compiler = vc.opaque("compiler")
+        t = vc.I.call(rule, [compiler, p], {})
+        vc.ensure("torch_class", isinstance(t, Obj) and t.cls.name == "Torch" + _cls)
+        vc.ensure("shape", vc.eq(vc.attr(t, "shape"), vc.attr(p, "shape")))
+        ins_t, ins_p = vc.attr(t, "in_shapes"), vc.attr(p, "in_shapes")
+        vc.ensure("num_inputs", len(ins_t) == len(ins_p))
+        for j, (a, b) in enumerate(zip(ins_t, ins_p)):
+            vc.ensure(f"in_shape{j}", vc.eq(a, b))
+        vc.ensure("num_folds_is_one", vc.attr(t, "num_folds") == 1)
+        for tname, pname in extra.items():
+            tv, pv = vc.attr(t, tname), vc.attr(p, pname)
+            vc.ensure(f"same_{tname}", (tv is None and pv is None) if (tv is None or pv is None) else vc.eq(tv, pv))
+    obligation(f"C14.rule.{_cls}", "C14", [f"{RP}:compile_" + {
+        "IndexParameter": "index_parameter", "SumParameter": "sum_parameter", "HadamardParameter": "hadamard_parameter",
+        "KroneckerParameter": "kronecker_parameter", "OuterProductParameter": "outer_product_parameter",
+        "OuterSumParameter": "outer_sum_parameter", "ExpParameter": "exp_parameter", "LogParameter": "log_parameter",
+        "SquareParameter": "square_parameter", "SigmoidParameter": "sigmoid_parameter",
+        "ScaledSigmoidParameter": "scaled_sigmoid_parameter", "ClampParameter": "clamp_parameter",
+        "SoftplusParameter": "softplus_parameter", "ConjugateParameter": "conjugate_parameter",
+        "ReduceSumParameter": "reduce_sum_parameter", "ReduceProductParameter": "reduce_product_parameter",
+        "ReduceLSEParameter": "reduce_lse_parameter", "SoftmaxParameter": "softmax_parameter",
+        "LogSoftmaxParameter": "log_softmax_parameter", "MixingWeightParameter": "mixing_weight_parameter",
+        "GaussianProductMean": "gaussian_product_mean", "GaussianProductStddev": "gaussian_product_stddev",
+        "GaussianProductLogPartition": "gaussian_product_log_partition", "PolynomialProduct": "polynomial_product",
+        "PolynomialDifferential": "polynomial_differential"}[_cls]])(_h)
